@@ -1,12 +1,21 @@
 """C14 Initial and thermal states are valid Boltzmann density matrices.
 
 E-grid.  Section "aggregate": full product
-    system x ground-state energy x bath x temperature x condition x
-    (relaxation_hamiltonian given?) x (temperature by argument / from the bath)
-and inside every point the state is requested three times: outside any basis context,
-inside eigenbasis_of(H) and inside the eigenbasis of another operator X.
+    system x ground-state energy of molecule 0 (E0) x ground-state offset of every molecule
+    (e0) x bath x temperature x condition x (relaxation_hamiltonian given?) x
+    (temperature by argument / from the bath)
+(quick tier: E0 and e0 not both non-zero -- either displaces the whole aggregate Hamiltonian
+by a constant, E0 resp. N*e0, the combinations only add further values of that constant)
+and inside every point the state is requested in every request context: outside any basis
+context, inside eigenbasis_of(H), inside the eigenbasis of another operator X, nested
+(X then H, H then X), and the same three X-containing contexts with a COMPLEX Hermitian
+X (complex transformation matrices: the representation of a real state has complex
+coherences there).
+Section "aggregate_rdm": Aggregate.get_thermal_ReducedDensityMatrix (the OpenSystem
+    version applied to an aggregate, whose Hamiltonian keeps the sum of the molecular
+    ground-state energies) over system x e0 x bath x temperature, same request contexts.
 Section "molecule": Molecule.get_thermal_ReducedDensityMatrix over
-    molecule x ground-state energy x temperature, same three request contexts.
+    molecule x ground-state energy x temperature, same request contexts.
 
 Every returned matrix is read back at depth 0 (site basis), so what is compared is the
 physical operator.  Oracles (reference model mc/refmodels/boltzmann.py, log space):
@@ -25,15 +34,24 @@ physical operator.  Oracles (reference model mc/refmodels/boltzmann.py, log spac
             through a basis transformation, ~1e-10 at 10 K, smaller above);
             T = 0: everything on the lowest level (skipped -> support check when the
             lowest level is degenerate, where the statement fixes no split)
- same state for thermal_excited_state weak/strong and the molecular state the reference is
-            the same operator for all three request contexts, and additionally
+            requests made in a complex basis (contexts ...Xc...): a coherence between two
+            DEGENERATE levels of the defining basis is allowed 1e-10 + expm1(128*eps*max|H|/kT)
+            (the basis inside a degenerate level is arbitrary and the populations of its
+            members differ by the conditioning term; observed 4e-13/T[K] for two degenerate
+            uncoupled sites, 4e-10 at 1 mK); all other coherences and all real contexts
+            keep 1e-10
+ same state for thermal_excited_state weak/strong, the molecular state and the aggregate's
+            thermal reduced density matrix the reference is
+            the same operator for all request contexts, and additionally
             |rho_ctx - rho_out| <= 1e-10 + expm1(128*eps*max|H|/kT) is checked directly
             (class R plus the same conditioning term); not at T = 0 with a degenerate lowest
             level, where the state is not unique.
 
 Defining basis: weak coupling -> eigenbasis of H (band = states >= Nb[0]); strong coupling
 -> site basis with site reorganisation energies subtracted (not subtracted when a
-relaxation_hamiltonian is supplied, as documented); molecule -> eigenbasis of its H.
+relaxation_hamiltonian is supplied, as documented); molecule and aggregate thermal reduced
+density matrix -> eigenbasis of the respective H (all bands, energies as they stand in H: a
+molecular H starts at 0, an aggregate's at the sum of the molecular ground-state energies).
 Plain `thermal`: the library defines it on the diagonal of H in the basis current at the
 request; the statement does not fix that, so the check accepts either this reading or the
 true canonical state exp(-H/kT)/Z, and does NOT demand inside == outside for it.
@@ -107,7 +125,9 @@ MOL_THOROUGH = list(MOLECULES)
 
 BATHS = {"none": None, "same": (30.0, 0.0), "diff": (30.0, 50.0)}   # reorg_i = a + b*i  (1/cm)
 CONDS = ["thermal", "tes_weak", "tes_strong", "impulsive"]
-CTXS = ["out", "inH", "inX", "inXH", "inHX"]   # the last two: nested, non-commuting contexts
+# inXH / inHX: nested, non-commuting contexts; ...Xc...: X complex Hermitian (complex basis)
+CTXS = ["out", "inH", "inX", "inXH", "inHX", "inXc", "inXcH", "inHXc"]
+E0_ALL = [0.0, 150.0, -300.0]     # ground-state energy offset given to EVERY molecule (1/cm)
 
 
 def _constraint(c):
@@ -120,26 +140,47 @@ def _constraint(c):
     return True
 
 
+def _constraint_quick(c):
+    # quick tier: E0 (molecule 0) and e0 (every molecule) both displace the whole aggregate
+    # Hamiltonian by a constant (E0 resp. N*e0); their combinations (thorough tier) only add
+    # further values of that constant
+    return _constraint(c) and not (c["E0"] != 0 and c["e0"] != 0)
+
+
+def _constraint_rdm(c):
+    # the temperature of get_thermal_ReducedDensityMatrix is the one of the bath; without a
+    # bath it is 0 K, and a bath at exactly 0 K cannot be constructed
+    return (c["bath"] == "none") == (c["T"] == 0)
+
+
 def cases(tier):
     if tier == "quick":
-        dom = {"sys": SYS_QUICK, "E0": [0.0, 1000.0], "bath": ["none", "diff"],
+        dom = {"sys": SYS_QUICK, "E0": [0.0, 1000.0], "e0": E0_ALL, "bath": ["none", "diff"],
                "cond": CONDS, "relham": [False, True], "tsrc": ["arg", "bath"],
                "T": T_DESIGN}
-        mdom = {"mol": MOL_QUICK, "E0": [0.0, 1000.0], "T": T_DESIGN}
+        rdom = {"sys": SYS_QUICK + ["dim_lowE"], "e0": E0_ALL, "bath": ["none", "diff"],
+                "T": T_DESIGN}
+        mdom = {"mol": MOL_QUICK, "E0": [0.0, 1000.0] + E0_ALL[1:], "T": T_DESIGN}
     else:
-        dom = {"sys": SYS_THOROUGH, "E0": [0.0, 1000.0, -1000.0, 20000.0],
+        dom = {"sys": SYS_THOROUGH, "E0": [0.0, 1000.0, -1000.0, 20000.0], "e0": E0_ALL,
                "bath": ["none", "same", "diff"],
                "cond": CONDS, "relham": [False, True], "tsrc": ["arg", "bath"],
                "T": sorted(T_DESIGN + T_EXTRA)}
-        mdom = {"mol": MOL_THOROUGH, "E0": [0.0, 1000.0, -1000.0, 20000.0],
+        rdom = {"sys": SYS_THOROUGH, "e0": E0_ALL, "bath": ["none", "same", "diff"],
                 "T": sorted(T_DESIGN + T_EXTRA)}
-    agg = product(dom, _constraint)
+        mdom = {"mol": MOL_THOROUGH, "E0": [0.0, 1000.0, -1000.0, 20000.0] + E0_ALL[1:],
+                "T": sorted(T_DESIGN + T_EXTRA)}
+    agg = product(dom, _constraint_quick if tier == "quick" else _constraint)
     for c in agg:
         c["section"] = "aggregate"
+    rdm = product(rdom, _constraint_rdm)
+    for c in rdm:
+        c["section"] = "aggregate_rdm"
+        c["tsrc"] = "bath"
     mol = product(mdom)
     for c in mol:
         c["section"] = "molecule"
-    return agg + mol
+    return agg + rdm + mol
 
 
 # ----------------------------------------------------------------------------
@@ -166,11 +207,12 @@ def build_aggregate(case):
     qr = isolation.qr()
     en, J, modes, mult = SYSTEMS[case["sys"]]
     n = len(en)
-    E0 = float(case["E0"])
+    E0 = float(case.get("E0", 0.0))      # ground-state energy of molecule 0
+    e0 = float(case.get("e0", 0.0))      # offset of the ground-state energy of every molecule
     mols = []
     with qr.energy_units("1/cm"):
         for i, e in enumerate(en):
-            g = E0 if i == 0 else 0.0
+            g = (E0 if i == 0 else 0.0) + e0
             m = qr.Molecule(elenergies=[g, g + float(e)])
             m.set_dipole(0, 1, list(DIP[i % len(DIP)]))
             mols.append(m)
@@ -232,9 +274,11 @@ def build_molecule(case):
     return m
 
 
-def _other_operator(H0, start):
+def _other_operator(H0, start, cplx=False):
     """Hermitian X = H + W, W a fixed symmetric perturbation inside the band >= start
-    (block structure kept, eigenvectors differ from those of H and from the site basis)."""
+    (block structure kept, eigenvectors differ from those of H and from the site basis).
+    cplx: W additionally gets a fixed imaginary antisymmetric part (never zero on a pair of
+    band states), X is complex Hermitian and its eigenvectors are genuinely complex."""
     n = H0.shape[0]
     X = numpy.array(H0, dtype=float)
     w = 60.0 * BZ.CM2INT
@@ -245,18 +289,48 @@ def _other_operator(H0, start):
             X[i, j] += v
             if i != j:
                 X[j, i] += v
+    if not cplx:
+        return X
+    X = X.astype(complex)
+    for i in range(start, n):
+        for j in range(i + 1, n):
+            a, b = i - start, j - start
+            u = w * (((5 * a + 3 * b + 2 * a * b) % 7) - 2.5)
+            X[i, j] += 1j * u
+            X[j, i] -= 1j * u
     return X
+
+
+def _check_context_bases(case, start, *bases):
+    """The reference needs the ground band to stay the lowest block in every eigenbasis and
+    the spectra of the context operators to be non-degenerate (bases fixed up to phases)."""
+    for (wv, M) in bases:
+        if numpy.max(numpy.abs(M[start:, :start])) > 1e-12 or \
+           numpy.max(numpy.abs(M[:start, start:])) > 1e-12:
+            raise isolation.HarnessError("band structure lost in eigenbasis: %r" % (case,))
+
+
+def _check_nondegenerate(case, wv):
+    d = numpy.diff(numpy.sort(numpy.real(wv)))
+    if d.size and numpy.min(d) <= 1e-9 * max(1.0, float(numpy.max(numpy.abs(wv)))):
+        raise isolation.HarnessError("context operator X has a degenerate spectrum: %r" % (case,))
 
 
 class _Skip(Exception):
     pass
 
 
-def _request(ctx, fn, Hop, Xmat):
-    """Call fn() outside / inside eigenbasis_of(H) / inside eigenbasis_of(X); return the
-    returned operator's matrix read at depth 0 (reference = site basis)."""
+def _request(ctx, fn, Hop, Xmat, Xcmat=None):
+    """Call fn() outside / inside eigenbasis_of(H) / inside eigenbasis_of(X) / nested; return
+    the returned operator's matrix read at depth 0 (reference = site basis).  The ...Xc...
+    contexts are the X-containing ones with the complex Hermitian X."""
     qr = isolation.qr()
     from quantarhei.qm.hilbertspace.operators import SelfAdjointOperator
+    if "Xc" in ctx:
+        if Xcmat is None:
+            raise isolation.HarnessError("complex X missing for context %s" % ctx)
+        ctx = ctx.replace("Xc", "X")
+        Xmat = Xcmat
     if ctx == "out":
         rho = fn()
     elif ctx == "inH":
@@ -322,14 +396,36 @@ def _check_valid(acc, rho, tag, need_trace):
     return True
 
 
-def _boltzmann_in_basis(rho, H0, B, start, T, subtract=None):
+def _cond_slack(ctx, condn):
+    """Extra allowance for coherences between DEGENERATE levels of the defining basis, used for
+    requests made in a complex basis only (the real contexts keep the plain class R bound).
+    The populations of two degenerate levels differ by the conditioning term (their energies
+    come back from a complex similarity transformation with rounding noise ~eps*max|H|, the
+    condition number of populations w.r.t. energies is 1/kT); the defining basis inside a
+    degenerate level is arbitrary, so the same difference shows as a coherence between the
+    reference's basis vectors of that level.  Same bound as the ratio and same-state clauses."""
+    return float(numpy.expm1(condn)) if "Xc" in ctx else 0.0
+
+
+def _boltzmann_in_basis(rho, H0, B, start, T, subtract=None, cond_slack=0.0):
     """Evaluate the structure and ratio clauses of rho w.r.t. defining basis B.
-    Returns dict(ok, structure, ratio_excess, ratio_abs, kind)."""
+    Returns dict(ok, structure, ratio_excess, ratio_abs, kind).
+    cond_slack: subtracted from |coherence| between degenerate band levels (see _cond_slack)."""
     n = H0.shape[0]
     Bm = numpy.eye(n) if B is None else B
     R = Bm.conj().T @ rho @ Bm
     p = numpy.real(numpy.diag(R)).copy()
     off = R - numpy.diag(numpy.diag(R))
+    if cond_slack > 0.0 and n - start > 1:
+        eb = numpy.real(numpy.einsum("ia,ij,ja->a", Bm.conj(), H0, Bm))[start:]
+        if subtract is not None:
+            eb = eb - subtract
+        deg = numpy.abs(eb[:, None] - eb[None, :]) <= 1e-9 * max(1.0, float(numpy.max(numpy.abs(eb))))
+        blk = off[start:, start:]
+        mag = numpy.abs(blk)
+        red = numpy.where(deg, numpy.maximum(mag - cond_slack, 0.0), mag)
+        off = off.copy()
+        off[start:, start:] = numpy.where(mag > 0, blk * (red / numpy.where(mag > 0, mag, 1.0)), 0.0)
     structure = float(numpy.max(numpy.abs(off))) if n > 1 else 0.0
     structure = max(structure, float(numpy.max(numpy.abs(numpy.diag(R).imag))))
     if start > 0:
@@ -388,6 +484,8 @@ UNSUPPORTED = ("strong-coupling equilibrium without relaxation_hamiltonian needs
 def eval_case(case):
     if case.get("section") == "molecule":
         return _eval_molecule(case)
+    if case.get("section") == "aggregate_rdm":
+        return _eval_aggregate_rdm(case)
     return _eval_aggregate(case)
 
 
@@ -414,12 +512,14 @@ def _eval_aggregate(case):
         w, U = BZ.eigenbasis(H0)
         Xmat = _other_operator(H0, start)
         wx, V = BZ.eigenbasis(Xmat)
-        # the reference needs the ground band to stay the lowest block in both eigenbases
-        for M in (U, V):
-            if numpy.max(numpy.abs(M[start:, :start])) > 1e-12 or \
-               numpy.max(numpy.abs(M[:start, start:])) > 1e-12:
-                raise isolation.HarnessError("band structure lost in eigenbasis: %r" % (case,))
-        Breq = {"out": None, "inH": U, "inX": V, "inXH": U, "inHX": V}[ctx]
+        Xcmat = _other_operator(H0, start, cplx=True)
+        wxc, Vc = BZ.eigenbasis(Xcmat)
+        _check_context_bases(case, start, (w, U), (wx, V), (wxc, Vc))
+        _check_nondegenerate(case, wx)
+        _check_nondegenerate(case, wxc)
+        # basis current at the request (innermost context)
+        Breq = {"out": None, "inH": U, "inX": V, "inXH": U, "inHX": V,
+                "inXc": Vc, "inXcH": U, "inHXc": Vc}[ctx]
         tag = "%s/req-%s" % (cond, ctx)
 
         kw = {}
@@ -438,7 +538,7 @@ def _eval_aggregate(case):
         unsupported = (cond == "tes_strong" and not case["relham"]
                        and (reorgs is None or bool(modes) or mult != 1))
         try:
-            rho = _request(ctx, lambda: agg.get_DensityMatrix(**kw), Hop, Xmat)
+            rho = _request(ctx, lambda: agg.get_DensityMatrix(**kw), Hop, Xmat, Xcmat)
         except isolation.HarnessError:
             raise
         except Exception as e:
@@ -499,8 +599,10 @@ def _eval_aggregate(case):
         if cond == "thermal":
             # reading (a): Boltzmann on the diagonal of H in the basis of the request;
             # reading (b): the canonical state.  Either satisfies the statement.
-            ra = _boltzmann_in_basis(rho, H0, Breq, 0, T)
-            rb = ra if ctx in ("inH", "inXH") else _boltzmann_in_basis(rho, H0, U, 0, T)
+            slack = _cond_slack(ctx, condn)
+            ra = _boltzmann_in_basis(rho, H0, Breq, 0, T, cond_slack=slack)
+            rb = ra if ctx in ("inH", "inXH", "inXcH") else \
+                _boltzmann_in_basis(rho, H0, U, 0, T, cond_slack=slack)
             best = ra if (ra["ok"] or not rb["ok"]) else rb
             acc.seen("structure", best["structure"])
             acc.seen("ratio_excess", best["ratio_excess"])
@@ -527,7 +629,8 @@ def _eval_aggregate(case):
                 sub = numpy.zeros(n - start)
                 for i in range(len(en)):
                     sub[i] = reorgs[i] * BZ.CM2INT
-        r = _boltzmann_in_basis(rho, H0, Bdef, start, T, subtract=sub)
+        r = _boltzmann_in_basis(rho, H0, Bdef, start, T, subtract=sub,
+                                cond_slack=_cond_slack(ctx, condn))
         ambiguous = ambiguous or r["degenerate_T0"]
         if r["ok"]:
             acc.seen("structure", r["structure"])
@@ -538,7 +641,7 @@ def _eval_aggregate(case):
         # classify: is it the state built from the diagonal of H in the request basis
         # and tagged with the request basis?  (only meaningful if that differs)
         sig = False
-        if ctx not in (("inH", "inXH") if cond == "tes_weak" else ("out",)):
+        if ctx not in (("inH", "inXH", "inXcH") if cond == "tes_weak" else ("out",)):
             if cond == "tes_weak":
                 # exciton populations placed on the diagonal of the request basis
                 pe = numpy.zeros(n)
@@ -574,7 +677,7 @@ def _eval_aggregate(case):
                     "%.3g x allowed)" % (T, r["ratio_abs"], r["ratio_excess"]))
     # same physical state inside / outside (class R), only where the request fixes the basis
     if cond in ("tes_weak", "tes_strong") and "out" in states and not ambiguous:
-        for ctx in ("inH", "inX", "inXH", "inHX"):
+        for ctx in CTXS[1:]:
             if ctx not in states:
                 continue
             dev = float(numpy.max(numpy.abs(states[ctx] - states["out"])))
@@ -595,6 +698,94 @@ def _eval_aggregate(case):
             "info": {"worst": acc.worst, "refused": refused}}
 
 
+def _eval_aggregate_rdm(case):
+    """Aggregate.get_thermal_ReducedDensityMatrix(): canonical state of the whole aggregate
+    Hamiltonian (all bands) at the temperature of the bath; defining basis = eigenbasis of H."""
+    acc = _Acc()
+    T = float(case["T"])
+    outcome = []
+    states = {}
+    ambiguous = False
+    for ctx in CTXS:
+        isolation.reset_manager()
+        agg, reorgs = build_aggregate(case)
+        Hop = agg.get_Hamiltonian()
+        H0 = numpy.real(numpy.array(Hop.data, dtype=complex))
+        H0 = 0.5 * (H0 + H0.T)
+        n = H0.shape[0]
+        start = int(agg.Nb[0])
+        condn = BZ.conditioning(float(numpy.max(numpy.abs(H0))), T)
+        w, U = BZ.eigenbasis(H0)
+        Xmat = _other_operator(H0, start)
+        Xcmat = _other_operator(H0, start, cplx=True)
+        _check_nondegenerate(case, numpy.linalg.eigvalsh(Xmat))
+        _check_nondegenerate(case, numpy.linalg.eigvalsh(Xcmat))
+        tag = "aggregate-rdm/req-%s" % ctx
+        Tlib = float(agg.get_temperature())
+        if Tlib != T:
+            raise isolation.HarnessError("bath temperature %r, wanted %r: %r" % (Tlib, T, case))
+        try:
+            rho = _request(ctx, lambda: agg.get_thermal_ReducedDensityMatrix(), Hop, Xmat, Xcmat)
+        except isolation.HarnessError:
+            raise
+        except Exception as e:
+            # label (not an oracle): do plain Boltzmann factors exp(-E_n/kT) of the absolute
+            # eigenvalues under/overflow, so that their normalisation is 0/0 or inf/inf?
+            naive = False
+            if T > 0:
+                with numpy.errstate(all="ignore"):
+                    f = numpy.exp(-w / (BZ.KB_INT * T))
+                    naive = not numpy.all(numpy.isfinite(f / numpy.sum(f)))
+            if naive:
+                # the context of the request is irrelevant for this failure: one key per case
+                acc.add("finite/aggregate-rdm/nan-then-raise",
+                        "T=%g, lowest eigenvalue of H %.6g 1/cm (requested %s): Boltzmann "
+                        "factors of the absolute energies under/overflow (0/0 or inf/inf), the "
+                        "state is NaN and the constructor raises: %s"
+                        % (T, w[0] / BZ.CM2INT, ctx, str(e)[:80]),
+                        {"exception": "%s: %s" % (type(e).__name__, str(e)[:200])})
+            else:
+                acc.add("handed-out/%s/raises-%s" % (tag, type(e).__name__),
+                        "T=%g request raised %s: %s" % (T, type(e).__name__, str(e)[:120]))
+            outcome.append("raise")
+            continue
+        outcome.append(_digest(rho))
+        if rho.shape != (n, n):
+            acc.add("shape/%s" % tag, "returned shape %r" % (rho.shape,))
+            continue
+        if not _check_valid(acc, rho, tag, need_trace=True):
+            continue
+        states[ctx] = rho
+        r = _boltzmann_in_basis(rho, H0, U, 0, T, cond_slack=_cond_slack(ctx, condn))
+        ambiguous = ambiguous or r["degenerate_T0"]
+        acc.seen("structure", r["structure"])
+        acc.seen("ratio_excess", r["ratio_excess"])
+        acc.seen("ratio_abs", r["ratio_abs"])
+        acc.seen("ratio_dlog_p>1e-6", r["ratio_dlog"])
+        if not r["ok"]:
+            if r["structure"] > TOL_R:
+                acc.add("boltzmann/%s/not-diagonal-in-defining-basis" % tag,
+                        "T=%g coherences %.3g in the eigenbasis of the aggregate Hamiltonian"
+                        % (T, r["structure"]))
+            else:
+                acc.add("boltzmann/%s/%s" % (tag, r["kind"]),
+                        "T=%g populations are not Boltzmann (|dp|=%.3g, %.3g x allowed)"
+                        % (T, r["ratio_abs"], r["ratio_excess"]))
+    if "out" in states and not ambiguous:
+        for ctx in CTXS[1:]:
+            if ctx in states:
+                dev = float(numpy.max(numpy.abs(states[ctx] - states["out"])))
+                acc.seen("same_state", dev)
+                if dev > TOL_R + numpy.expm1(condn) and \
+                        not any(k.startswith("boltzmann/aggregate-rdm") for k in acc.keys):
+                    acc.add("same-state/aggregate-rdm/req-%s-vs-out" % ctx,
+                            "T=%g state requested inside (%s) differs from outside by %.3g"
+                            % (T, ctx, dev))
+    return {"nontrivial": bool(T > 0),
+            "outcome": ["aggregate-rdm", case["sys"], case["e0"], T, outcome],
+            "violations": acc.v, "n": len(CTXS) - 1, "info": {"worst": acc.worst, "refused": 0}}
+
+
 def _eval_molecule(case):
     acc = _Acc()
     T = float(case["T"])
@@ -611,9 +802,12 @@ def _eval_molecule(case):
         condn = BZ.conditioning(float(numpy.max(numpy.abs(H0))), T)
         w, U = BZ.eigenbasis(H0)
         Xmat = _other_operator(H0, 1)
+        Xcmat = _other_operator(H0, 1, cplx=True)
+        _check_nondegenerate(case, numpy.linalg.eigvalsh(Xmat))
+        _check_nondegenerate(case, numpy.linalg.eigvalsh(Xcmat))
         tag = "molecule/req-%s" % ctx
         try:
-            rho = _request(ctx, lambda: m.get_thermal_ReducedDensityMatrix(), Hop, Xmat)
+            rho = _request(ctx, lambda: m.get_thermal_ReducedDensityMatrix(), Hop, Xmat, Xcmat)
         except isolation.HarnessError:
             raise
         except Exception as e:
@@ -628,7 +822,7 @@ def _eval_molecule(case):
         if not _check_valid(acc, rho, tag, need_trace=True):
             continue
         states[ctx] = rho
-        r = _boltzmann_in_basis(rho, H0, U, 0, T)
+        r = _boltzmann_in_basis(rho, H0, U, 0, T, cond_slack=_cond_slack(ctx, condn))
         ambiguous = ambiguous or r["degenerate_T0"]
         acc.seen("structure", r["structure"])
         acc.seen("ratio_excess", r["ratio_excess"])
@@ -644,7 +838,7 @@ def _eval_molecule(case):
                         "T=%g populations are not Boltzmann (|dp|=%.3g, %.3g x allowed)"
                         % (T, r["ratio_abs"], r["ratio_excess"]))
     if "out" in states and not ambiguous:
-        for ctx in ("inH", "inX", "inXH", "inHX"):
+        for ctx in CTXS[1:]:
             if ctx in states:
                 dev = float(numpy.max(numpy.abs(states[ctx] - states["out"])))
                 acc.seen("same_state", dev)
@@ -671,10 +865,15 @@ def _merge(infos):
 
 
 def run(run):
-    run.rule = ("full product system x ground-state energy x bath x condition x "
-                "relaxation_hamiltonian x temperature source x temperature (aggregates) and "
+    run.rule = ("full product system x ground-state energy of molecule 0 x ground-state offset "
+                "of every molecule x bath x condition x relaxation_hamiltonian x temperature "
+                "source x temperature (aggregates, get_DensityMatrix), system x ground-state "
+                "offset of every molecule x bath x temperature (aggregates, "
+                "get_thermal_ReducedDensityMatrix) and "
                 "molecule x ground-state energy x temperature (molecules); each point requested "
-                "outside, inside eigenbasis_of(H) and inside eigenbasis_of(X); non-trivial = "
+                "outside, inside eigenbasis_of(H), inside eigenbasis_of(X), nested X/H and H/X, "
+                "each X-containing context with a real symmetric and with a complex Hermitian X; "
+                "non-trivial = "
                 "T > 0 and (>= 2 levels in the excited band for thermal_excited_state) or a "
                 "non-zero impulsive excitation; refused (unsupported) requests are trivial")
     run.assumptions = [
@@ -688,18 +887,31 @@ def run(run):
         "as refused, and covered through relaxation_hamiltonian=H",
         "thermal_excited_state only for single-exciton aggregates (mult=1)",
         "a bath at exactly 0 K cannot be built; T=0 is passed by argument / no environment",
+        "get_thermal_ReducedDensityMatrix takes its temperature from the bath only: the "
+        "aggregate_rdm section has T > 0 with a bath and T = 0 without one",
+        "quick tier: ground-state energy of molecule 0 (E0) and the offset of every molecule "
+        "(e0) are not combined (both are constant displacements of the aggregate Hamiltonian); "
+        "the thorough tier has the full product",
+        "context operators X (real symmetric and complex Hermitian) are H plus a fixed "
+        "perturbation inside the excited bands, with a non-degenerate spectrum (verified per "
+        "case), so that the basis of a context is fixed up to phases",
     ]
     allc = cases(run.tier)
     agg = [c for c in allc if c["section"] == "aggregate"]
+    rdm = [c for c in allc if c["section"] == "aggregate_rdm"]
     mol = [c for c in allc if c["section"] == "molecule"]
     run.bounds = {"temperatures": sorted(set(c["T"] for c in agg)),
                   "systems": SYS_QUICK if run.tier == "quick" else SYS_THOROUGH,
                   "molecules": MOL_QUICK if run.tier == "quick" else MOL_THOROUGH,
-                  "E0": sorted(set(c["E0"] for c in agg)), "contexts": CTXS,
+                  "E0": sorted(set(c["E0"] for c in agg)),
+                  "e0_every_molecule": E0_ALL, "contexts": CTXS,
                   "tolerances": {"R": TOL_R, "psd": TOL_PSD, "kB_rel": BZ.KB_REL,
                                  "ratio_rtol_log": 1e-9}}
     i1 = run_grid(run, agg, eval_case, section="aggregate")
+    i3 = run_grid(run, rdm, eval_case, section="aggregate_rdm")
     i2 = run_grid(run, mol, eval_case, section="molecule")
     w1, r1 = _merge(i1)
     w2, r2 = _merge(i2)
-    run.note(worst_aggregate=w1, worst_molecule=w2, refused_requests=r1 + r2)
+    w3, r3 = _merge(i3)
+    run.note(worst_aggregate=w1, worst_aggregate_rdm=w3, worst_molecule=w2,
+             refused_requests=r1 + r2 + r3)
